@@ -1265,17 +1265,36 @@ func (x *Exec) CheckGraphViews(t int64) string {
 			}
 			ins := m.InAt(gid, rel, t)
 			inEdges, _ := x.E.VGetIncomingEdges(index, node, rel, t)
-			var gotS []string
+			var gotS, gotInFull []string
 			for _, e := range inEdges {
 				gotS = append(gotS, e.TargetID)
+				gotInFull = append(gotInFull, fmt.Sprintf("%s|w=%v|p=%s|c=%d|d=%d", e.TargetID, e.Weight, normProps(string(e.Props)), e.CreatedAt, e.DeletedAt))
 			}
 			sort.Strings(gotS)
+			sort.Strings(gotInFull)
 			var wantS []string
 			for _, s := range ins {
 				wantS = append(wantS, NodeOf(s))
 			}
 			if !reflect.DeepEqual(gotS, wantS) && !(len(gotS) == 0 && len(wantS) == 0) {
 				return fmt.Sprintf("VGetIncomingEdges(%s,%s,%s,@%d) sources=%v want %v", index, node, rel, t, gotS, wantS)
+			}
+			// the incoming view carries the same version (weight, properties, stamps) the
+			// outgoing view of its source shows for that instant
+			var wantInFull []string
+			for k, vs := range m.Edges {
+				if k.Rel != rel {
+					continue
+				}
+				for _, v := range vs {
+					if v.Target == gid && ActiveAt(v.Created, v.Deleted, t) {
+						wantInFull = append(wantInFull, fmt.Sprintf("%s|w=%v|p=%s|c=%d|d=%d", NodeOf(k.Src), v.Weight, normProps(v.Props), v.Created, v.Deleted))
+					}
+				}
+			}
+			sort.Strings(wantInFull)
+			if len(wantInFull) == len(gotInFull) && !reflect.DeepEqual(gotInFull, wantInFull) {
+				return fmt.Sprintf("VGetIncomingEdges(%s,%s,%s,@%d)=%v, the versions active then are %v", index, node, rel, t, gotInFull, wantInFull)
 			}
 			if t == 0 {
 				links, _ := x.E.VGetLinks(index, node, rel)
